@@ -36,6 +36,10 @@ def transform_frame(rng, df, n, force_junk=False):
     if force_junk or rng.random() < 0.5:
         df2["junk1"] = [rng.random() for _ in range(n)]
         df2["junk2"] = [rng.choice(["p", None, "q"]) for _ in range(n)]
+        # ... and unused columns that happen to be named like keyword arguments or callees of the formulas
+        for nm in ("df", "degree", "knots", "levels", "raw", "shift", "intercept", "C", "np", "scale"):
+            if rng.random() < 0.4 and nm not in df2.columns:
+                df2[nm] = [None if rng.random() < 0.3 else rng.randint(0, 3) for _ in range(n)]
         ops.append("columns:added-unused(with NA)")
     if rng.random() < 0.4:
         df2 = df2.drop(columns=[c for c in ("u1", "u2") if c in df2.columns])
